@@ -316,4 +316,39 @@ def pReuseTrace2 : List PLabel :=
    .begin none, .get (some 0), .app 5 0, .push 0,
    .finPut 0, .get (some 0), .app 6 0, .push 0, .emit, .finPut 0]
 
+/-! ### variants of the parameter-pool discipline (for the negative witnesses only)
+
+`PCfg.code` is `pstep`.  `keepOnEmit`: `csiDispatch` does not give the storage away at `emit` — the
+`Parameters` list and every parameter slice in it are at once available to its next `Get`s (as if
+they went back to `paramListPool` / `paramPool` at delivery instead of at `Finish`; the analogue of
+`Cfg.noGet` for the intermediates).  `finishTwice`: the consumer hands a CSI back twice. -/
+
+structure PCfg where
+  keepOnEmit : Bool := false
+  finishTwice : Bool := false
+  deriving DecidableEq, Repr, Inhabited
+
+def PCfg.code : PCfg := {}
+
+def pstepV (c : PCfg) (s : PSt) : PLabel → Option PSt
+  | .emit =>
+    match pstep s .emit, s.work with
+    | some s', some (l, _) =>
+      if c.keepOnEmit then some { s' with lpool := l :: s'.lpool, ppool := hdrs s.lheap l ++ s'.ppool } else some s'
+    | r, _ => r
+  | .finish k =>
+    match s.delivered[k]? with
+    | none => none
+    | some d =>
+      if c.finishTwice then some { s with fin := (d.l, 0) :: s.fin }      -- still listed: can be finished again
+      else pstep s (.finish k)
+  | l => pstep s l
+
+def prunV (c : PCfg) : PSt → List PLabel → Option PSt
+  | s, [] => some s
+  | s, l :: ls =>
+    match pstepV c s l with
+    | none => none
+    | some s' => prunV c s' ls
+
 end VaxisModel.Model.ParserPools
